@@ -1,7 +1,7 @@
 """C03 — A successful Parse yields exactly the value the text denotes: clauses
 (a) canonical SAX transduction (E6 outputs), (b) type-flag algebra, (c) length
 packing shifts (DESIGN.md section 5/C03)."""
-from ..core import get_facts, strip, cval, show, walk, locline
+from ..core import get_facts, strip, cval, show, walk, locline, AnalysisBroken
 from . import c01
 
 BASIC = ['kNull', 'kBool', 'kNumber', 'kString', 'kRaw', 'kObject', 'kArray']
@@ -67,6 +67,66 @@ EXPLANATION = ('the model is not hand-written: it is re-extracted from the clang
                'so traces_validated_against_impl is 0 by construction; obligations/discharged count the additional dataflow and constant rules')
 
 
+def clause_kind_predicates(facts, rep):
+    """'type tests': every Is* predicate of the node, evaluated (sv/minterp.py) for every type tag of the TypeFlag
+    enumeration and, for the integer kinds, over the payload values around 2^63: the answer equals the kind the tag
+    and payload denote (IsInt64 <=> signed, or unsigned and <= INT64_MAX; IsUint64 <=> unsigned tag; ...)."""
+    from ..minterp import Interp, Unsupported, UndefinedBehaviour
+    tags = {}
+    for en in facts.enums:
+        if en.get('qn', '').endswith('TypeFlag') or en.get('name') == 'TypeFlag':
+            for c in en.get('consts', en.get('values', [])):
+                tags[c['name']] = int(c['value'] if 'value' in c else c['v'])
+    need = ('kNull', 'kFalse', 'kTrue', 'kUint', 'kSint', 'kReal', 'kStringCopy', 'kStringFree', 'kStringConst', 'kObject', 'kArray', 'kRaw')
+    rep.require(all(t in tags for t in need), 'C03.kinds: TypeFlag enumerators not found: %s' % sorted(set(need) - set(tags)))
+    I64MAX = (1 << 63) - 1
+    STR = ('kStringCopy', 'kStringFree', 'kStringConst')
+    SPEC = {
+        'IsNull': lambda t, u: t == 'kNull',
+        'IsBool': lambda t, u: t in ('kTrue', 'kFalse'),
+        'IsTrue': lambda t, u: t == 'kTrue',
+        'IsFalse': lambda t, u: t == 'kFalse',
+        'IsString': lambda t, u: t in STR,
+        'IsStringConst': lambda t, u: t == 'kStringConst',
+        'IsRaw': lambda t, u: t == 'kRaw',
+        'IsNumber': lambda t, u: t in ('kUint', 'kSint', 'kReal'),
+        'IsArray': lambda t, u: t == 'kArray',
+        'IsObject': lambda t, u: t == 'kObject',
+        'IsContainer': lambda t, u: t in ('kArray', 'kObject'),
+        'IsDouble': lambda t, u: t == 'kReal',
+        'IsUint64': lambda t, u: t == 'kUint',
+        'IsInt64': lambda t, u: t == 'kSint' or (t == 'kUint' and u <= I64MAX),
+    }
+    payloads = [0, 1, I64MAX - 1, I64MAX, I64MAX + 1, I64MAX + 2, (1 << 64) - 1]
+    seen = set()
+    for f in facts.functions:
+        if f.cls_qn != 'sonic_json::GenericNode' or f.short not in SPEC or f.params or f.short in seen:
+            continue
+        seen.add(f.short)
+        rep.fn(f)
+        bad = None
+        n = 0
+        try:
+            for t in need:
+                for u in (payloads if t in ('kUint', 'kSint') else [0, (1 << 64) - 1]):
+                    for hi in (0, 0xABCDE):   # bits above the tag byte (length of strings / containers) must not matter
+                        tt = tags[t]
+                        mem = {'t.t': tt, 'n.u64': u, 'n.i64': u - (1 << 64) if u > I64MAX else u,
+                               'sv.len': (hi << 8) | tt}
+                        r = Interp(f, facts).run({}, mem)[0]
+                        n += 1
+                        if bool(r) != bool(SPEC[f.short](t, u)) and bad is None:
+                            bad = '%s() = %s for tag %s, payload %d (0x%x)' % (f.short, bool(r), t, u, u)
+        except UndefinedBehaviour as ex:
+            bad = 'undefined behaviour: %s' % ex
+        except Unsupported as ex:
+            raise AnalysisBroken('C03.kinds: %s cannot be evaluated: %s' % (f.short, ex))
+        rep.check(bad is None, 'E5.kind-predicate', f.qn, '%s over %d tag/payload states' % (f.short, n), f.loc, bad or '', facts.config)
+    # member templates are instantiated on use: the driver reaches most, the integer/real kinds are indispensable
+    rep.require(len(seen) >= 13 and {'IsInt64', 'IsUint64', 'IsDouble', 'IsNumber', 'IsString', 'IsNull', 'IsBool'} <= seen,
+                'C03.kinds: only %s of the %d predicates found' % (sorted(seen), len(SPEC)))
+
+
 def run(rep, tier):
     configs = ['K1'] if tier == 'quick' else ['K1', 'K3', 'K7']
     for cfg in configs:
@@ -75,6 +135,7 @@ def run(rep, tier):
         c01.clause_a(facts, rep, tier)
         clause_b(facts, rep)
         clause_c(facts, rep)
+        clause_kind_predicates(facts, rep)
         from . import c04
         c04.clause_d(facts, rep)   # numbers keep the value the text denotes only if dropped digits are remembered
         c04.clause_f(facts, rep)   # ... and an integer that fits uint64 is stored as an integer
